@@ -226,10 +226,15 @@ impl Parser for Markdown {
                         use pulldown_cmark::Tag;
 
                         if matches!(tag, Tag::CodeBlock(..)) {
-                            tokens.push(Token {
-                                span: Span::new_with_len(traversed_chars, text.chars().count()),
-                                kind: TokenKind::Unlintable,
-                            });
+                            // Measure the chunk in the source: for a partially consumed tab the
+                            // parser emits padding text that does not exist in the document.
+                            let chunk_len = source_str[range.start..range.end].chars().count();
+                            if chunk_len > 0 {
+                                tokens.push(Token {
+                                    span: Span::new_with_len(traversed_chars, chunk_len),
+                                    kind: TokenKind::Unlintable,
+                                });
+                            }
                             continue;
                         }
                         if matches!(tag, Tag::Link { .. }) && self.options.ignore_link_title {
